@@ -46,10 +46,10 @@ def scenarios(tier, seed):
     out.append({"id": "tk_boundary", "kind": "boundary", "idk": idk, "fk": fk})
     out.append({"id": "tk_sample_%d" % seed, "kind": "sample", "seed": seed, "n": 10 ** 5 if quick else 10 ** 7, "log": 20000})
     # full sweeps (every one of the 2^16 values of one field is logged in chunks and validated by TLC)
-    sweep_ids = [0, U32] if quick else [0, 1, 0xFFFF, 0x10000, 0x7FFFFFFF, 0x80000000, U32 - 1, U32]
-    sweep_ids += [rnd.randrange(2, U32 - 1) for _ in range(1 if quick else 4)]
+    sweep_ids = [0, U32] if quick else [0, 1, 0xFFFF, 0x10000, 0x80000000, U32 - 1, U32]
+    sweep_ids += [rnd.randrange(2, U32 - 1) for _ in range(1 if quick else 2)]
     for i in sweep_ids:
-        fixed = [0, 0xFFFF, rnd.randrange(1, 0xFFFF)] + ([] if quick else [1, 0x7FFF, 0x8000, 0xFFFE])
+        fixed = [0, 0xFFFF, rnd.randrange(1, 0xFFFF)] + ([] if quick else [1, 0x8000])
         for axis in ("v", "s"):
             out.append({"id": "tk_sweep_%s_%d" % (axis, i), "kind": "sweep", "idv": i, "axis": axis, "fixed": fixed,
                         "full": 1, "log": 0, "seed": seed})
@@ -71,6 +71,23 @@ def scenarios(tier, seed):
         # every n in 1..65540, one fresh factory each (about 2^31 calls of TokenFactory::token)
         out.append({"id": "tk_factory_all", "kind": "factory", "idv": rnd.randrange(0, U32), "v": rnd.randrange(0, 0x10000),
                     "ns": [], "range": [1, 65540], "full": []})
+    return out
+
+
+def groups(scns, budget=1400000):
+    """split the scenario list so that one trace file stays below ~60 MB (TLC loads a trace into memory)"""
+    out, cur, w = [], [], 0
+    for s in scns:
+        cost = 65536 * len(s["fixed"]) if s["kind"] == "sweep" and s["full"] else \
+            65536 * len(s["ids"]) // 8 if s["kind"] == "nextver" else \
+            20000 if s["kind"] == "sample" else 8000 + len(s.get("ns", [])) + (65540 if s.get("range") else 0)
+        if cur and w + cost > budget:
+            out.append(cur)
+            cur, w = [], 0
+        cur.append(s)
+        w += cost
+    if cur:
+        out.append(cur)
     return out
 
 
@@ -180,8 +197,16 @@ def engine(prop, tier, seed, work):
             res.viol.append({"prop": prop, "scn": "model:" + cfg, "clauses": ["model:" + ",".join(r["violated"])], "replay": cex, "first_line": 0})
     # 2. + 3. the real code, validated by TLC
     scns = scenarios(tier, seed)
-    verdict, tr_path = validate(scns, work, "token", res)
-    bulk_n, bulk_logged, bulk_mis, facs, fac_panicked = digest(tr_path)
+    verdict = {"n": 0, "evals": 0}
+    bulk_n = bulk_logged = bulk_mis = facs = fac_panicked = 0
+    for gi, grp in enumerate(groups(scns)):
+        v, tr_path = validate(grp, work, "token%d" % gi, res)
+        verdict["n"] += v["n"]
+        verdict["evals"] += v.get("evals", 0)
+        bulk_n, bulk_logged, bulk_mis, facs, fac_panicked = [a + b for a, b in zip(
+            (bulk_n, bulk_logged, bulk_mis, facs, fac_panicked), digest(tr_path))]
+        if not res.viol:
+            os.remove(tr_path)          # traces are large (tens of MB); keep them only when a replay refers to them
     res.nontrivial |= {s["id"] for s in scns if s["kind"] != "sample"}
     res.samples += [{"engine": "token", "scenario": s} for s in scns[:1] + scns[-2:-1]]
     res.notes.append("TokenTrace: %d records, %d evaluations of the real pack/unpack/next_version/TokenFactory validated by TLC "
